@@ -6,26 +6,26 @@ CONSTANTS
   Lists <- NoLists
   ReorgPairs <- NoReorgs
   Dts = {1}
-  SubmitSet <- SubT
+  SubmitSet <- SubC26
   TestSet <- NoTx
-  PrioSet <- PrioT
-  Ticks <- TicksQ
+  PrioSet <- NoPrio
+  Ticks <- NoTicks
   MaxBlocks = 0
   MaxDisc = 0
   MaxReorg = 0
-  MaxPrio = 1
-  MaxTicks = 1
+  MaxPrio = 0
+  MaxTicks = 0
   MaxExpire = 0
   MinRelay = 100
   IncrRelay = 100
   Expiry = 1209600
   MaxReplClusters = 100
   MaxClusterCount = 64
-  Ext <- ExtT
+  Ext <- ExtC26
 INIT Init
 NEXT Next
 VIEW View0
-INVARIANTS Consistent NextBlockValid UtxoIsReplay Bookkeeping
-PROPERTIES LoadsSound
-ACTION_CONSTRAINT PersistFocusQ Emit
+INVARIANTS Consistent NextBlockValid UtxoIsReplay Bookkeeping ClusterLimits
+PROPERTIES ReplacementsSound PackageReplacementsSound PackagesSound
+ACTION_CONSTRAINT Emit
 CHECK_DEADLOCK FALSE
